@@ -417,6 +417,10 @@ def _seq_run(arglists):
 _ALONE = {}  # invocation name -> files written when it is the only invocation of its process (filled before the pool forks)
 
 
+def _seq_single(name):
+    return _seq_run([SEQ_INVOCATIONS[name]])
+
+
 def sequence_case(item):
     names = list(item)
     alone = {n: (_ALONE[n] if n in _ALONE else _seq_run([SEQ_INVOCATIONS[n]])) for n in dict.fromkeys(names)}
@@ -470,7 +474,7 @@ def main():
         for cli, pwd, usr in itertools.product((None, v1, v2), repeat=3):
             items.append(("prec", opt, cli, pwd, usr))
     # all sequences of <= 2 (quick) / <= 3 (thorough) invocations of ffcx.main.main inside one interpreter
-    for n, r in pmap(lambda k: _seq_run([SEQ_INVOCATIONS[k]]), sorted(SEQ_INVOCATIONS), desc="C20 single invocations"):
+    for n, r in pmap(_seq_single, sorted(SEQ_INVOCATIONS), desc="C20 single invocations"):
         _ALONE[n] = r
     for n in range(2, (3 if chk.thorough else 2) + 1):
         for seq in itertools.product(sorted(SEQ_INVOCATIONS), repeat=n):
